@@ -14,11 +14,14 @@ for hp in sorted(glob.glob(os.path.join(ROOT, "props", "*", "hooks.txt"))):
     for l in open(hp):
         l = l.strip().split()[0] if l.strip() else ""
         if l and l not in hooks["source_commits"]: hooks["source_commits"].append(l)
+claimed = None
+cp = os.path.join(ROOT, "tools", "claimed.json")
+if os.path.exists(cp): claimed = set(json.load(open(cp)))
 checks = []; na = []; engines = {}
 for pr in props:
     i = pr["id"]
     c = cfgs.get(i)
-    if not c or c.get("disabled"):
+    if not c or c.get("disabled") or (claimed is not None and i not in claimed):
         na.append({"property_id": i, "reason": na_reasons.get(i, "engine not built yet in this round (plan: DESIGN.md §5 %s); no check is registered, nothing is claimed" % i)})
         continue
     checks.append({
